@@ -112,3 +112,124 @@ def run(battery):
                 out.append((name, i, a, b))
                 break
     return out
+
+
+# ---- ready-made batteries -------------------------------------------------------------------------------------
+
+def parse_battery():
+    from mathy_core.parser import ExpressionParser
+
+    from .. import sig as SG
+
+    out = []
+    for t in ["4x + 2", "4x +", ") 4", "", "x = 2y^2", "12x", "1 2x", "(x + 1)(x - 1)", "2x^3", "2.0x^3.0", "sgn(-3)", "5!", "Sgn(2)", "8 / 4 / 2",
+              "xy^2", "-x^2", "1.2.3", "2 # 3", "(" * 20 + "x", "((x))", "x^2^3", "-(-2)", "0.00002x", "9007199254740993"]:
+        try:
+            out.append((t, "tree", SG.sig(ExpressionParser().parse(t))))
+        except Exception as e:  # noqa
+            out.append((t, "raise", type(e).__name__, str(getattr(e, "message", e))[:60]))
+    return out
+
+
+def token_battery():
+    from mathy_core.tokenizer import Tokenizer
+
+    out = []
+    for keep in (True, False):
+        for t in ["4x + 2", "sgnx", "sgn(x)", "1.2.3", "x  –[y]", "7" * 70, " \t\n", "2#", "Sgn", "a.b"]:
+            try:
+                out.append((t, keep, tuple((k.type, k.value) for k in Tokenizer(exclude_padding=not keep).tokenize(t))))
+            except Exception as e:  # noqa
+                out.append((t, keep, "raise", type(e).__name__))
+    return out
+
+
+def clone_battery():
+    from mathy_core.parser import ExpressionParser
+
+    from .. import sig as SG
+    from . import rewrite as RW
+
+    out = []
+    for t in ["4x + 2", "-(x + 2) * 3", "x = 2y^2", "sgn(x)^2 + 5!", "(a + b) * (a + b)"]:
+        tree = ExpressionParser().parse(t)
+        out.append((t, "clone", SG.sig(tree.clone())))
+        for i, n in enumerate(RW.inorder(tree)):
+            try:
+                r = n.clone_from_root()
+                out.append((t, i, RW.path_of(r), SG.sig(RW.get_root(r))))
+            except Exception as e:  # noqa
+                out.append((t, i, "raise", type(e).__name__))
+    return out
+
+
+def layout_battery():
+    from mathy_core.layout import TreeLayout
+    from mathy_core.tree import BinaryTreeNode
+
+    from ..gen import shapes as S
+
+    out = []
+    for sh in ["(o(o.))", "((.o)((.o)(oo)))", "(((.(.o)).)(.((o.).)))", "((oo)(oo))", "(.(.(.o)))"]:
+        for ux, uy in ((1.0, 1.0), (2.0, 3.0)):
+            root = S.build(S.parse(sh), BinaryTreeNode)
+            m = TreeLayout().layout(root, ux, uy)
+            out.append((sh, ux, tuple((n.x, n.y) for n in S.preorder(root)), (m.minX, m.maxX, m.minY, m.maxY, m.width, m.height)))
+    return out
+
+
+def predicate_battery():
+    from mathy_core import util as U
+    from mathy_core.parser import ExpressionParser
+
+    out = []
+    for t in ["x^2 + x + x^2", "2x + 3y", "4x^2", "x * x + 3x^2", "2 + 3", "4x * 2y", "x^2 * 4", "-x^2 + 0.5x"]:
+        tree = ExpressionParser().parse(t)
+        row = [t]
+        for fn in (U.has_like_terms, U.is_simple_term, U.is_preferred_term_form):
+            try:
+                row.append(fn(tree))
+            except Exception as e:  # noqa
+                row.append("raise:" + type(e).__name__)
+        for n in tree.to_list("inorder"):
+            try:
+                g = U.get_term_ex(n)
+                row.append(None if g is None else tuple(g))
+            except Exception as e:  # noqa
+                row.append("raise:" + type(e).__name__)
+        out.append(tuple(row))
+    for n in (9, 12, 49729, 1018081, 97):
+        try:
+            out.append(("factor", n, tuple(sorted((int(k), int(v)) for k, v in U.factor(n).items()))))
+        except Exception as e:  # noqa
+            out.append(("factor", n, "raise:" + type(e).__name__))
+    return out
+
+
+def generator_battery():
+    """the generators under fixed seeds of the real RNG: same seed, same output, whatever happened before"""
+    import random
+
+    from mathy_core import problems as P
+
+    out = []
+    calls = [("gen_simplify_multiple_terms", dict(num_terms=4)), ("gen_combine_terms_in_place", {}), ("gen_commute_haystack", {}),
+             ("gen_move_around_blockers_one", dict(number_blockers=2)), ("gen_move_around_blockers_two", dict(number_blockers=2)),
+             ("gen_binomial_times_binomial", {}), ("gen_binomial_times_monomial", {})]
+    for pretty in (True, False):
+        P.use_pretty_numbers(pretty)
+        for seed in (0, 1, 7):
+            for gen, kw in calls:
+                random.seed(seed)
+                try:
+                    out.append((gen, pretty, seed, getattr(P, gen)(**kw)))
+                except Exception as e:  # noqa
+                    out.append((gen, pretty, seed, "raise:" + type(e).__name__))
+    P.use_pretty_numbers(True)
+    return out
+
+
+def differential(prefix, battery):
+    """[(core, detail)] - ready for Acc.violation"""
+    return [(f"{prefix}-depend-on-earlier-unrelated-calls", f"after {name}: {str(before)[:160]} became {str(after)[:160]}")
+            for name, i, before, after in run(battery)]
